@@ -19,7 +19,7 @@
 (*     Warm-th member on (CPython's free lists) - TLC must REFUTE MemoWalkSound                   *)
 (*     (MC_EqWide_memo.cfg, must_fail);                                                           *)
 (*   * S2C: MC_EqWide_gen*.cfg print every case with the clause an answer True / False would      *)
-(*     contradict, for eq(x, y) and for eq(y, x).                                                 *)
+(*     contradict, for eq(x, y) and for eq(y, x); and in_(alt, members of y) for the list kind.   *)
 EXTENDS Eq, TLC, Json, SequencesExt
 CONSTANTS Widths,    \* the widths of the containers
           Deep,      \* more member templates and container kinds
@@ -125,12 +125,17 @@ Step == /\ k < n
 
 \* ---- S2C generator ----------------------------------------------------------------------------------
 \* (the values Norm(x), Norm(y) are bound once: a LET is evaluated at most once)
-ClF(u, v, nu, nv) == LET cl == ClauseIfF(nu, nv) IN IF cl = "copy_unequal" /\ ~SameRealisation(u, v) THEN "other_realisation_unequal" ELSE cl
+ClF(u, v, nu, nv, pin) == LET cl == ClauseIfFP(nu, nv, pin) IN IF cl = "copy_unequal" /\ ~SameRealisation(u, v) THEN "other_realisation_unequal" ELSE cl
+\* in_(another copy of alt, the members of y as a list): True as soon as alt is among them - at whatever position, after
+\* however many members that are not it; for p = 0 whatever is pinned between alt and m
+InWant == IF p >= 1 THEN <<"T">>
+          ELSE LET q == PinC(Fresh(mem[2]), Fresh(mem[1])) IN IF q = "free" THEN <<"T", "F">> ELSE <<q>>
 Eval == k = 0 /\ k' = n + 1 /\ UNCHANGED <<kind, mem, n, p, memo, law, mech>>
-EvalGen == Eval /\ LET x == XX  y == Y  nx == Norm(x)  ny == Norm(y) IN
+EvalGen == Eval /\ LET x == XX  y == Y  nx == Norm(x)  ny == Norm(y)  pin == Pin(nx, ny)  rpin == Pin(ny, nx) IN
                    PrintT(ToJson([kind |-> kind, n |-> n, p |-> p, x |-> x, y |-> y,
-                                  ifT |-> ClauseIfT(nx, ny), ifF |-> ClF(x, y, nx, ny), at |-> At(nx, ny),
-                                  rifT |-> ClauseIfT(ny, nx), rifF |-> ClF(y, x, ny, nx), rat |-> At(ny, nx)]))
+                                  ifT |-> ClauseIfTP(nx, ny, pin), ifF |-> ClF(x, y, nx, ny, pin), at |-> At(nx, ny),
+                                  rifT |-> ClauseIfTP(ny, nx, rpin), rifF |-> ClF(y, x, ny, nx, rpin), rat |-> At(ny, nx),
+                                  alt |-> Fresh(mem[2]), seq |-> IF kind = "l" THEN Items(y) ELSE <<>>, inw |-> IF kind = "l" THEN InWant ELSE <<>>]))
 
 \* ---- invariants --------------------------------------------------------------------------------------
 \* (the clauses about the case are evaluated once per case: in the state after Eval / after the first step of the walk -
@@ -144,10 +149,10 @@ SameMember == p = 0 \/ StructCopy(Norm(mem[1]), Norm(mem[2]))
 WidePinned == ~Judge \/ LET x == XX  y == Y  nx == Norm(x)  ny == Norm(y)  pin == Pin(nx, ny) IN
     /\ Pin(ny, nx) = pin
     /\ (Differs => pin = "F")
-    /\ (SameMember => pin = "T" /\ ClF(x, y, nx, ny) \in {"copy_unequal", "other_realisation_unequal"})
+    /\ (SameMember => pin = "T" /\ ClF(x, y, nx, ny, pin) \in {"copy_unequal", "other_realisation_unequal"})
     /\ ((~Differs /\ Plain(nx) /\ Plain(ny)) => pin = "T")
     /\ (pin = "T" => ~Differs)
-    /\ ClF(x, y, nx, ny) = ClauseIfFC(x, y)
+    /\ ClF(x, y, nx, ny, pin) = ClauseIfFC(x, y)
 \* ... and so is the reason: the place of the difference is the place where m and alt differ
 WideAt == ~Judge \/ (Differs => LET nx == Norm(XX)  ny == Norm(Y) IN
                                    At(nx, ny) = AtC(mem[1], mem[2]) /\ ClauseIfT(nx, ny) = ClauseIfTC(mem[1], mem[2]))
